@@ -73,6 +73,7 @@ func (g *gen) execCall(instr ssa.Instruction, c *ssa.CallCommon, v ssa.Value, st
 	for i, a := range c.Args {
 		args[i] = g.val(st, a)
 	}
+	g.siteAsserts(instr, c, st)
 	sig := c.Signature()
 	callee := c.StaticCallee()
 	var bindings []ssa.Value
@@ -595,8 +596,28 @@ func (g *gen) contractCallGeneric(instr ssa.Instruction, con *Contract, sig *typ
 		}
 	}
 	readonly := con.flag("pure") || (len(mods) == 0 && !g.exposesHeap(sig) && calleeRO == "")
+	keptHeaps, staysSet := g.keptHeaps(instr, con, cname)
+	var staysPre []string
+	for _, h := range staysSet {
+		staysPre = append(staysPre, g.heapVar(st, h, g.heapSorts[h]))
+	}
+	// a contract whose frame nobody checks (trusted, noframe) and that states none promises nothing about the
+	// heap: everything the callee can reach may change. (Library functions are assumed not to write yq memory.)
+	unknownFrame := unknownFrame(con)
+	if unknownFrame {
+		readonly = false
+	}
 	if !readonly {
 		g.newEpoch(st, func(name, r string) string {
+			if keptHeaps != nil && keptHeaps(name) {
+				return "true"
+			}
+			if unknownFrame {
+				if r == "" {
+					return "false"
+				}
+				return g.privateKeep(name, r)
+			}
 			if r == "" {
 				for _, m := range mods {
 					if m.heap == name {
@@ -634,6 +655,15 @@ func (g *gen) contractCallGeneric(instr ssa.Instruction, con *Contract, sig *typ
 			if g.escaped[a] {
 				st.cells[a] = g.newConst("cell."+sanitize(a.Comment), g.sorts.sortOf(deref(a.Type())))
 			}
+		}
+	}
+	for i, h := range staysSet {
+		// a variable that is only ever assigned non-nil values stays set once it is
+		now := g.heapVar(st, h, g.heapSorts[h])
+		if g.heapSorts[h] == "Iface" {
+			g.assume(sImp(sNot(sEq(app("i.typ", staysPre[i]), "0")), sNot(sEq(app("i.typ", now), "0"))))
+		} else if g.heapSorts[h] == "Int" {
+			g.assume(sImp(sNot(sEq(staysPre[i], "0")), sNot(sEq(now, "0"))))
 		}
 	}
 	for _, m := range mods {
@@ -1021,6 +1051,10 @@ func (g *gen) callEffects(c *ssa.CallCommon, ef *effects) {
 		if con.flag("pure") {
 			return
 		}
+		if unknownFrame(con) {
+			ef.all = true
+			ef.unknown = append(ef.unknown, con.Keeps)
+		}
 		for _, m := range con.Modifies {
 			for _, h := range g.modHeapNames(m, callee) {
 				ef.strong[h] = true
@@ -1038,7 +1072,7 @@ func (g *gen) callEffects(c *ssa.CallCommon, ef *effects) {
 	}
 	if callee != nil && g.P.summaries != nil {
 		if s, ok := g.P.summaries[callee]; ok && s.docPure {
-			ef.all = true // only the doc heap is preserved; handled by newEpoch in summaryCall. Conservative here.
+			ef.all, ef.hardAll = true, true // only the doc heap is preserved; handled by newEpoch in summaryCall. Conservative here.
 			return
 		}
 	}
@@ -1058,7 +1092,7 @@ func (g *gen) callEffects(c *ssa.CallCommon, ef *effects) {
 		ef.allocates = true
 		return
 	}
-	ef.all = true
+	ef.all, ef.hardAll = true, true
 }
 
 // modHeapNames: heap variables named by a modifies clause (type-level, no instantiation).
@@ -1334,4 +1368,65 @@ func plainErrorUse(v ssa.Value, depth int) bool {
 		}
 	}
 	return true
+}
+
+// keptHeaps: the heaps a contract's "keeps" clauses preserve across this call; each clause is an obligation
+// discharged on the call graph (no reachable function stores into the field).
+func (g *gen) keptHeaps(instr ssa.Instruction, con *Contract, cname string) (func(string) bool, []string) {
+	if con == nil || len(con.Keeps) == 0 {
+		return nil, nil
+	}
+	ci, ok := instr.(ssa.CallInstruction)
+	if !ok {
+		return nil, nil
+	}
+	G := g.P.reach()
+	var exact, prefixes, stays []string
+	for _, k := range con.Keeps {
+		chain, nroots := G.keepsCheck(ci.Common(), g.fn, k)
+		cond := "true"
+		if chain != "" || nroots == 0 && !ci.Common().IsInvoke() && ci.Common().StaticCallee() == nil {
+			cond = "false"
+		}
+		what := " leaves " + k + " alone"
+		if strings.HasPrefix(k, "nonnil:") {
+			what = " never clears " + strings.TrimPrefix(k, "nonnil:")
+		}
+		o := g.oblige("keeps", cname+what, instr.Pos(), cond, nil)
+		o.Detail = "call graph: " + G.describe() + fmt.Sprintf("; %d root(s)", nroots)
+		if chain != "" {
+			o.Detail += "; a writer is reachable: " + chain
+		}
+		if cond == "false" {
+			continue
+		}
+		switch {
+		case strings.HasPrefix(k, "nonnil:var."):
+			h := "G.yqlib." + strings.TrimPrefix(k, "nonnil:var.")
+			if g.heapSorts[h] != "" {
+				stays = append(stays, h)
+			}
+		case k == "list.*":
+			exact = append(exact, listLenHeap, listValHeap)
+		case strings.HasPrefix(k, "var."):
+			exact = append(exact, "G.yqlib."+strings.TrimPrefix(k, "var."))
+		case strings.HasSuffix(k, ".*"):
+			prefixes = append(prefixes, "H.yqlib."+strings.TrimSuffix(k, "*"))
+		default:
+			exact = append(exact, "H.yqlib."+k)
+		}
+	}
+	return func(name string) bool {
+		for _, e := range exact {
+			if name == e {
+				return true
+			}
+		}
+		for _, p := range prefixes {
+			if strings.HasPrefix(name, p) && !strings.Contains(name[len(p):], ".") {
+				return true
+			}
+		}
+		return false
+	}, stays
 }
